@@ -475,7 +475,22 @@ def splice(template_path, repo_root, canary=False, quarantine=(), inline=None):
                 r15 = []
                 if inline and inline.get(oname):
                     from inline import inline_helpers
-                    src_obj, r15 = inline_helpers(src_obj, kv["fn"], inline[oname])
+                    src_inl, r15 = inline_helpers(src_obj, kv["fn"], inline[oname])
+                    # an inlining that does not leave a well-bracketed file (e.g. a const ARRAY taken for a value to paste) is dropped:
+                    # the name stays unknown and only that function is quarantined — not the whole unit (seed C12-11)
+                    try:
+                        _d = 0
+                        for _t in src_inl.toks:
+                            if _t.kind == "punct" and _t.text in ("(", "[", "{"):
+                                _d += 1
+                            elif _t.kind == "punct" and _t.text in (")", "]", "}"):
+                                _d -= 1
+                        if _d == 0:
+                            src_obj = src_inl
+                        else:
+                            r15 = [("R15-dropped", "inlining left unbalanced delimiters; not applied")]
+                    except Exception:
+                        r15 = [("R15-dropped", "inlined text does not lex; not applied")]
                 body = Body(src_obj, kv["fn"], closure=kv.get("closure"))
                 body.report.extend(r15)
                 # parameter names must agree with the template header
